@@ -31,11 +31,14 @@ RULE = ("Scenario = seeded (graph, 1-2 Shapers (thorough: up to 3) with sources 
         "objects, interleaved history of <=4 shex_graph/profile_graph calls per Shaper over {ShExC,SHACL}x{string,file}x"
         "{0,.5,1}, at most one armed fault, flush knob in {1,2,3,7,50,5000}); plus systematic sweeps placing one "
         "source/sink/peer fault at every event index of sampled histories, default-knob outputs above 5 000 and 10 000 lines, and "
-        "object-lifetime scenarios (forty extractions one after the other in one process, each dropped before the next, each compared with a pristine process). "
+        "object-lifetime scenarios (forty extractions one after the other in one process, each dropped before the next, each compared with a pristine process), and "
+        "overlapping-caller scenarios (2-3 caller tasks on real threads released one at a time by a seeded interleaver at seam events - line read, store triple, sink write, query, fetch - "
+        "under 5-11 schedules each, nested or random with switch probability .05-1; every document compared with a pristine process running that task alone). "
         "Non-trivial = at least one non-empty shape AND (>=2 calls on one Shaper, or argument objects shared between two "
         "Shapers, or a fault that fired, or a mid-document flush); distinct = distinct scenario documents.")
 COMPONENTS = components(["SPARQLWrapper (whole HTTP client) -> SimEndpoint", "time.sleep in io/sparql/query -> SimClock",
-                         "urllib urlopen under rdflib -> SimHTTP", "open() in file_line_reader / shex_serializer -> SimFS wrapper over real temp files"])
+                         "urllib urlopen under rdflib -> SimHTTP", "open() in file_line_reader / shex_serializer -> SimFS wrapper over real temp files",
+                         "thread scheduling of overlapping callers -> Interleaver (baton passing at seam events; the OS never chooses who runs)"])
 ASSUMPTIONS = [
     "reference = sheXer itself in a fresh, fault-free environment (same channel kind, new Shaper, deep-copied original arguments): a defect that changes the first call of a fresh Shaper identically is invisible here",
     "SHACL outputs are compared up to graph isomorphism (rdflib to_isomorphic), ShExC outputs byte for byte",
@@ -96,6 +99,9 @@ def _gen_call(rng, first_threshold):
 
 
 def generate(rng, tier, index):
+    if index % 25 == 7:
+        # overlapping callers inside the random batch too (the determinism self-test reruns the first indices)
+        return _gen_overlap(random.Random("C18-overlap-batch:%r" % rng.random()), 4)
     faulty = rng.random() < 0.45
     endpoint_ok = rng.random() < 0.3
     kinds = ("node", "str", "int", "iri", "iri2") if endpoint_ok else ("node", "str", "int", "lang", "date", "iri", "iri2", "cdt")
@@ -437,9 +443,174 @@ def _execute_lifetimes(scen, scratch):
     return finish(sim, violations, verdicts, len(texts) >= 2, len(scen["lifetimes"]), texts)
 
 
+# ---------------------------------------------------------------------------
+# overlapping callers: the calls of two or three Shapers interleaved at seam events
+# ---------------------------------------------------------------------------
+
+def _task_kwargs(sim, task, tag):
+    """materialise the source of one caller task; returns Shaper kwargs"""
+    triples = [gen.T(t) for t in task["graph"]]
+    kw = {"namespaces_dict": dict(gen.BASE_NS), "instances_report_mode": "mixed"}
+    kw.update(copy.deepcopy(task.get("options", {})))
+    kw.update(target_kwargs(task["target"]))
+    src = task["source"]
+    if src == "raw":
+        kw["raw_graph"] = gen.to_nt(triples)
+    elif src == "file":
+        kw["graph_file_input"] = sim.write_file("ov_%s.nt" % tag, gen.to_nt(triples))
+    elif src == "files":
+        k = max(1, len(triples) // 2)
+        kw["graph_list_of_files_input"] = [sim.write_file("ov_%s_%d.nt" % (tag, j), gen.to_nt(triples[a:a + k]))
+                                           for j, a in enumerate(range(0, len(triples), k))]
+    elif src == "tsv":
+        kw["graph_file_input"] = sim.write_file("ov_%s.tsv" % tag, gen.to_tsv(triples))
+        kw["input_format"] = "tsv_spo"
+    elif src in ("gz", "xz"):
+        import gzip
+        import lzma
+        p = sim.path("ov_%s.nt.%s" % (tag, src))
+        with open(p, "wb") as f:
+            f.write((gzip.compress if src == "gz" else lzma.compress)(gen.to_nt(triples).encode("utf-8")))
+        kw["graph_file_input"] = p
+        kw["compression_mode"] = src
+    elif src == "zip":
+        import zipfile
+        p = sim.path("ov_%s.zip" % tag)
+        k = max(1, len(triples) // 2)
+        with zipfile.ZipFile(p, "w") as z:
+            for j, a in enumerate(range(0, len(triples), k)):
+                z.writestr("part%d.nt" % j, gen.to_nt(triples[a:a + k]))      # the same member names in every caller's archive
+        kw["graph_file_input"] = p
+        kw["compression_mode"] = "zip"
+    elif src == "store":
+        from ..world import SimStore
+        kw["rdflib_graph"] = gen.to_rdflib_graph(triples, cls=SimStore).configure(sim, task.get("order_seed", 0), independent=True)
+    elif src == "endpoint":
+        kw["url_endpoint"] = EP_URL
+    else:
+        raise ValueError(src)
+    return kw
+
+
+def _run_task(sim, task, tag):
+    """one caller: build a Shaper, make its calls.  Returns a list of Result (one, for the constructor, if that raised)."""
+    out = []
+    holder = {}
+    r = call(lambda: holder.__setitem__("sh", new_shaper(_task_kwargs(sim, task, tag))))
+    if r.kind == "exc":
+        return [r]
+    sh = holder["sh"]
+    for j, c in enumerate(task["calls"]):
+        path = sim.path("ov_out_%s_%d.txt" % (tag, j))
+        ckw = _call_kwargs(c, path)
+        r = call(lambda: sh.shex_graph(**ckw), None)
+        if c["sink"] == "file" and r.kind == "ok":
+            r.text = _read(path)
+        out.append(r)
+    return out
+
+
+def _overlap_endpoint(sim, tasks):
+    eps = [t for t in tasks if t["source"] == "endpoint"]
+    if eps:
+        # at most one dataset behind the address; rows in canonical order (the order of arrival of the queries of
+        # different callers is the schedule's, and must not matter)
+        sim.set_endpoint(SimEndpoint(sim, [gen.T(t) for t in eps[0]["graph"]], row_seed=0, canonical_rows=True))
+
+
+def overlap_fresh(task, scratch):
+    """Runs in a pristine process: one caller task alone."""
+    os.makedirs(scratch, exist_ok=True)
+    sim = Sim(scratch)
+    with sim:
+        set_knob(NEVER_FLUSH)
+        _overlap_endpoint(sim, [task])
+        rs = _run_task(sim, task, "fresh")
+    return [{"kind": r.kind, "text": r.text, "exc": r.exc, "msg": r.msg} for r in rs]
+
+
+def _execute_overlap(scen, scratch):
+    """Caller tasks whose extractions overlap in time (each on its own thread, released one at a time by the seeded
+    interleaver at seam events).  Every document of every task must equal what a pristine process computes for that task
+    alone: constructing and using one Shaper must not alter the behaviour of another, wherever in the other's work it
+    happens."""
+    from ..pristine import call as pristine_call
+    from ..world import Interleaver
+    ov = scen["overlap"]
+    tasks = ov["tasks"]
+    violations, verdicts, texts = [], [], []
+    refs = [pristine_call("dsim.props.c18", "overlap_fresh", t, os.path.join(scratch, "fresh")) for t in tasks]
+    runs = len(tasks)
+    events0 = None
+    for si, sched in enumerate(ov["schedules"]):
+        sim_scratch = os.path.join(scratch, "s%d" % si)
+        os.makedirs(sim_scratch, exist_ok=True)
+        sim = Sim(sim_scratch)
+        with sim:
+            set_knob(sched.get("knob", NEVER_FLUSH))
+            _overlap_endpoint(sim, tasks)
+            nested_at = None
+            if sched["mode"] == "nested":
+                nested_at = int(sched["frac"] * (events0 or 0))
+            ilv = Interleaver(sim, sched.get("seed", 0), switch_p=sched.get("p", 0.0), nested_at=nested_at)
+            sim.interleaver = ilv
+            fns = {i: (lambda i=i: _run_task(sim, tasks[i], "t%d" % i)) for i in range(len(tasks))}
+            try:
+                res = ilv.run(fns)
+            finally:
+                sim.interleaver = None
+            runs += len(tasks)
+        if events0 is None:
+            events0 = ilv.events[0]
+        overlapped = ilv.switches > 0
+        for i in range(len(tasks)):
+            got = res.get(i)
+            if isinstance(got, StepCapExceeded):
+                violations.append(violation("termination", "step_cap", str(got)))
+                continue
+            if isinstance(got, BaseException) or got is None:
+                raise RuntimeError("overlap task %d ended with %r" % (i, got))
+            ref = refs[i]
+            fmts = [c["format"] for c in tasks[i]["calls"]]
+            verdicts.append(("overlap", si, i, [("ok:shacl" if (r.kind == "ok" and len(got) == len(fmts) and fmts[j] == SHACL) else r.brief())
+                                                 for j, r in enumerate(got)]))
+            if len(got) != len(ref):
+                violations.append(violation("overlap", "exception_parity", {"schedule": si, "task": i, "expected_calls": len(ref), "got_calls": len(got),
+                                                                            "got": [r.brief() for r in got]}))
+                continue
+            for j, (r, f) in enumerate(zip(got, ref)):
+                fmt = tasks[i]["calls"][j]["format"] if len(got) == len(tasks[i]["calls"]) else SHEXC
+                if (r.kind, r.exc) != (f["kind"], f["exc"]):
+                    violations.append(violation("overlap", "exception_parity", {"schedule": si, "task": i, "call": j, "expected": f["exc"] or f["kind"],
+                                                                                "got": r.brief(), "msg": (r.msg or f["msg"] or "")[:160]}))
+                elif r.kind == "ok" and not _same(fmt, f["text"], r.text):
+                    import difflib
+                    d = list(difflib.unified_diff((f["text"] or "").splitlines(), (r.text or "").splitlines(), lineterm="", n=0))[:10]
+                    violations.append(violation("overlap", "bytes_differ", {"schedule": si, "sched": sched, "task": i, "call": j,
+                                                                            "expected": sha(f["text"]), "got": sha(r.text), "diff": d}))
+                if r.kind == "ok" and fmt == SHEXC:
+                    texts.append(r.text)
+        sim.probes["overlap_schedules"] += 1
+        if overlapped:
+            sim.probes["overlap_schedules_with_switches"] += 1
+        sim.probes["overlap_switches"] += ilv.switches
+        sim.probes["overlap_seam_events"] += sum(ilv.events.values())
+        if si == 0:
+            acc = sim
+        else:
+            acc.probes.update(sim.probes)
+            for e in sim.log.events:
+                acc.log.events.append(e)
+    shapes = max([shape_stats(t)[1] for t in texts] or [0])
+    return finish(acc, violations, verdicts, shapes > 0 and acc.probes.get("overlap_switches", 0) > 0, runs, texts)
+
+
+
 def execute(scen, scratch):
     if "lifetimes" in scen:
         return _execute_lifetimes(scen, scratch)
+    if "overlap" in scen:
+        return _execute_overlap(scen, scratch)
     sim = Sim(scratch)
     sim.fs.short_write_max = scen.get("short_write_max", 0)
     violations = []
@@ -777,6 +948,45 @@ def _knobsweep(sim, w, spec, ns, scen):
 # systematic sub-checks
 # ---------------------------------------------------------------------------
 
+def _gen_overlap(rng, n_sched):
+    tasks = []
+    n_tasks = 2 if rng.random() < 0.75 else 3
+    have_ep = False
+    for i in range(n_tasks):
+        kinds = ("node", "str", "int", "iri")
+        triples = gen.gen_graph(rng, n_nodes=rng.choice([3, 4, 6, 9]), n_classes=rng.randint(1, 3), n_props=rng.randint(1, 3), kinds=kinds)
+        src = rng.choice(["file", "file", "store", "files", "tsv", "raw", "endpoint", "gz", "xz", "zip"])
+        if src == "endpoint" and have_ep:
+            src = "file"
+        have_ep = have_ep or src == "endpoint"
+        target = gen.gen_target(rng, triples, allow_shape_map=(src in ("file", "raw") and rng.random() < 0.3))
+        o = gen.gen_options(rng, allow_inverse=True, allow_disable_comments=True)
+        if rng.random() < 0.4 and "shape_map_raw" not in target:
+            o["instances_cap"] = rng.randint(1, 3)
+        if rng.random() < 0.15:
+            o["namespaces_to_ignore"] = [rng.choice([gen.EX, gen.OTHER])]
+        if rng.random() < 0.15:
+            o["examples_mode"] = rng.choice(["all", "shape", "cons"])
+        calls = [{"format": SHACL if rng.random() < 0.2 else SHEXC, "sink": "file" if rng.random() < 0.5 else "string",
+                  "threshold": rng.choice(THRESHOLDS)} for _ in range(1 if rng.random() < 0.7 else 2)]
+        for c in calls[1:]:
+            c["threshold"] = calls[0]["threshold"]       # a changed threshold on a later call is another scenario family's business
+        tasks.append({"source": src, "graph": gen.L(triples), "target": target, "options": o, "calls": calls,
+                      "order_seed": rng.randrange(1000)})
+    if all(t["source"] == "raw" and all(c["sink"] == "string" for c in t["calls"]) for t in tasks):
+        tasks[0]["source"] = "file"          # somebody must meet a seam event
+    scheds = [{"mode": "random", "p": 0.0, "seed": 0}]      # first: no switch (counts task 0's seam events)
+    for k in range(n_sched):
+        r = rng.random()
+        if r < 0.4:
+            scheds.append({"mode": "nested", "frac": rng.random()})
+        else:
+            scheds.append({"mode": "random", "p": rng.choice([0.05, 0.2, 0.5, 1.0]), "seed": rng.randrange(10 ** 6),
+                           "knob": rng.choice([1, 3, NEVER_FLUSH])})
+    return {"overlap": {"tasks": tasks, "schedules": scheds}}
+
+
+
 def extra_scenarios(tier, base):
     """(1) default-knob big outputs (file == string across real 5000-line flushes);
     (2) one fault at every position of sampled histories."""
@@ -852,6 +1062,10 @@ def extra_scenarios(tier, base):
             lives.append({"graph": gen.L(triples), "row_seed": j, "target": {"target_classes": [gen.EX + "C0", gen.EX + "C1"]},
                           "options": ({"disable_endpoint_cache": True} if j % 3 == 0 else {})})
         out.append(("lifetimes-endpoint-%d" % h, {"lifetimes": lives}))
+    # overlapping callers: 2-3 tasks x several seeded interleavings at seam events
+    for h in range(24 if tier == "quick" else 600):
+        rng = random.Random("C18-overlap:%s:%s" % (base, h))
+        out.append(("overlap-%d" % h, _gen_overlap(rng, 6 if tier == "quick" else 10)))
     return out
 
 
@@ -860,6 +1074,32 @@ def extra_scenarios(tier, base):
 # ---------------------------------------------------------------------------
 
 def shrink(scen):
+    if "overlap" in scen:
+        ov = scen["overlap"]
+        for j in range(1, len(ov["schedules"])):
+            c = copy.deepcopy(scen)
+            c["overlap"]["schedules"] = [ov["schedules"][0], ov["schedules"][j]]
+            if len(ov["schedules"]) > 2:
+                yield c
+        if len(ov["tasks"]) > 2:
+            for j in range(1, len(ov["tasks"])):
+                c = copy.deepcopy(scen)
+                del c["overlap"]["tasks"][j]
+                yield c
+        for i, t in enumerate(ov["tasks"]):
+            if len(t["calls"]) > 1:
+                c = copy.deepcopy(scen)
+                c["overlap"]["tasks"][i]["calls"] = t["calls"][:1]
+                yield c
+            for key in sorted(t["options"]):
+                c = copy.deepcopy(scen)
+                del c["overlap"]["tasks"][i]["options"][key]
+                yield c
+            for j in range(len(t["graph"])):
+                c = copy.deepcopy(scen)
+                del c["overlap"]["tasks"][i]["graph"][j]
+                yield c
+        return
     if "lifetimes" in scen:
         for j in range(len(scen["lifetimes"])):
             c = copy.deepcopy(scen)
